@@ -125,6 +125,7 @@ type SpecDB struct {
 	Lemmas    []*Lemma
 	Consts    map[string]int64
 	Owners    []OwnerDecl
+	CallHolds []CallHold
 	Classes   map[string]*StrClass
 	ClassOrder []string
 }
@@ -134,6 +135,12 @@ type StrClass struct {
 	Name string
 	P    Expr // over the octet c
 	Src  string
+}
+
+// CallHold: "callsite <Type.Method> in <function>: holds <Type.mutex>" - the call happens inside a
+// critical section of that mutex (check-then-act on shared state stays atomic).
+type CallHold struct {
+	Callee, Func, Guard string
 }
 
 type OwnerDecl struct {
@@ -242,7 +249,7 @@ func (db *SpecDB) loadSpecFile(path string, prefix string) error {
 		lines = append(lines, lineT{strings.TrimSpace(t), i + 1})
 	}
 	// join continuation lines: a line that does not start with a directive keyword continues the previous one
-	kw := regexp.MustCompile(`^(contract|stub|rec func|func|ufunc|ghost field|const|axiom|lemma|owner|strclass|prop|requires|ensures|invariant|modifies|fresh|loop|trusted|maypanic|pure|nooverflow|inline|thread|use|by induction|ghostset|also|split|before|onrecv|join|recv|backedge)\b`)
+	kw := regexp.MustCompile(`^(contract|stub|rec func|func|ufunc|ghost field|const|axiom|lemma|owner|callsite|strclass|prop|requires|ensures|invariant|modifies|fresh|loop|trusted|maypanic|pure|nooverflow|inline|thread|use|by induction|ghostset|also|split|before|onrecv|join|recv|backedge)\b`)
 	var joined []lineT
 	for _, l := range lines {
 		if kw.MatchString(l.text) || len(joined) == 0 {
@@ -371,6 +378,13 @@ func (db *SpecDB) loadSpecFile(path string, prefix string) error {
 				return fail(l, "induction outside lemma")
 			}
 			curLemma.Induct = strings.TrimSpace(strings.TrimPrefix(t, "by induction on "))
+		case strings.HasPrefix(t, "callsite "):
+			fs := strings.SplitN(strings.TrimPrefix(t, "callsite "), ":", 2)
+			parts := strings.SplitN(fs[0], " in ", 2)
+			if len(fs) != 2 || len(parts) != 2 || !strings.HasPrefix(strings.TrimSpace(fs[1]), "holds ") {
+				return fail(l, "bad callsite decl (callsite <callee> in <func>: holds <mutex>)")
+			}
+			db.CallHolds = append(db.CallHolds, CallHold{Callee: strings.TrimSpace(parts[0]), Func: strings.TrimSpace(parts[1]), Guard: strings.TrimSpace(strings.TrimPrefix(strings.TrimSpace(fs[1]), "holds "))})
 		case strings.HasPrefix(t, "owner "):
 			fs := strings.SplitN(strings.TrimPrefix(t, "owner "), ":", 2)
 			if len(fs) != 2 {
